@@ -963,6 +963,13 @@ def evaluate(case, native):
             return True, (f'validator {"reports" if reported else "does not report"} {case["rule"]} although the documented rule is {"broken" if case["broken"] else "not broken"}: '
                           f'job ids {[j["id"] for j in case["problem"]["plan"]["jobs"]]}, vehicle types {fleet} (all codes: {native["codes"]})')
         return False, f'{case["rule"]}: reported={reported} agrees with the documented rule'
+    if kind == 'collect_all':
+        n, nj, pair = case['routes'], case['jobs'], native['pair']
+        want = [min(pair[i][j] for i in range(n)) for j in range(nj)] if case['fold_jobs'] else [min(pair[i][j] for j in range(nj)) for i in range(n)]
+        if native['costs'] != want:
+            return True, (f'evaluate_and_collect_all over {n} tours (1 of the solution + {n - 1} fresh) and {nj} jobs, one entry per {"job" if case["fold_jobs"] else "tour"}: '
+                          f'costs {native["costs"]}, the minima over the other dimension are {want}')
+        return False, 'one entry per job / tour with the minimum over the other dimension'
     if kind == 'statistic_sum':
         for k_ in ('cost', 'distance', 'duration', 'driving', 'serving', 'waiting', 'break_time', 'commuting', 'parking'):
             want = case['a'][k_] + case['b'][k_]
